@@ -680,9 +680,12 @@ func runC12(c *h.Ctx) {
 	subjects := []string{"", "a", "A", "abc", "ABC", "a\nb", "a\nB", "ab\n", "\nb", "a.c", "axc", "a+b", "aab", "12", "x12y", "é", "É", "(a)", "a|b", "b", "a\\b", " a ", "a.c\nA.C",
 		// case folding is not lower-casing: final sigma, long s, micro sign, dotted capital I, Kelvin sign, sharp s
 		"ς", "σ", "Σ", "ſ.", "s.", "µ", "μ", "İ", "i", "I", "ı", "K", "k", "ß", "SS", "ǅ", "ǆ",
+		"7up", "7UP", "up", "17up", "0.p", "0xp", ".p", "xp", "20.p", "1a", "6a", "16a", "a", "2a.c", "2abc", "4a.c", "8a", "3", "16", "6",
 		"a\\E.", "ab", "aEb", "a\\Eb", "\\E", "\\Qa.c\\E", "\\Qa.c", "a.c\\E|b", "a$b", "[", "(", "a{2}", "aa", "\\", "a\\", "%s", "a|", "$", "^"}
 	patterns := []string{"^a", "a$", "a.c", "^$", "A", "b$", "^b", ".", "a|b", "(ab)+", "[0-9]+", "\\d", "^.*$", "a.b", "^a.b$", "é", "a+b", "\\(a\\)", "a\\.c", "", "^a$", "c$", "\\s", "(?i)a", "^B", "a\\\\b", "[[:alpha:]]+", "x*", "(a|b)c?", "^.+$", "σ", "ς", "s.", "μ", "i", "k", "ss", "ǆ", "İ",
 		// what a pattern quoter must not trip over (literal under q, regular expressions otherwise)
+		// patterns that begin with digits (what a cache key built by concatenation confuses)
+		"7up", "up", "17up", "0.p", ".p", "20.p", "1a", "6a", "16a", "2a.c", "4a.c", "8a", "3", "16",
 		"a\\E.", "\\E", "\\Qa.c\\E", "\\Qa.c", "a\\Eb", "\\E.*", "a.c\\E|b", "\\Q\\E", "$", "^", "a$b", "[", "(", "a{2}", "\\", "a\\", "%s", "a|"}
 	flagSets := []string{"", "i", "s", "m", "q", "is", "im", "sm", "iq", "ism", "ismq", "sq", "mq"}
 	idx = 0
@@ -736,6 +739,54 @@ func runC12(c *h.Ctx) {
 		}
 	}
 	_ = json.Number("")
+	// the same table of small patterns x flag sets in every worker process, in
+	// an order that differs from worker to worker: what one like_regex matches
+	// does not depend on which other ones the process has evaluated before
+	{
+		hp := []string{"7up", "up", "17up", "0.p", ".p", "20.p", "1a", "6a", "16a", "a", "2a.c", "a.c", "4a.c", "8a", "3", "16", "6", ".", "A"}
+		hs := []string{"7up", "7UP", "up", "UP", "17up", "0.p", "0xp", ".p", "xp", "20.p", "1a", "6a", "16a", "a", "A", "2a.c", "2abc", "abc", "a.c", "3", "16"}
+		type cell struct{ pat, fl string }
+		var cells []cell
+		for _, pat := range hp {
+			for _, fl := range flagSets {
+				cells = append(cells, cell{pat, fl})
+			}
+		}
+		for round := 0; round < 2; round++ {
+			for i := range cells {
+				// (a permutation per shard and round)
+				ce := cells[(i*(2*c.Shard+7)+round*13)%len(cells)]
+				if len(cells)%(2*c.Shard+7) == 0 {
+					ce = cells[(i+c.Shard+round)%len(cells)]
+				}
+				ptxt := "$x like_regex " + gQuote(ce.pat)
+				if ce.fl != "" {
+					ptxt += ` flag "` + ce.fl + `"`
+				}
+				p, perr, ppan := h.ParseSafe(ptxt)
+				prefix, quote := translateFlags(ce.fl)
+				src := ce.pat
+				if quote {
+					src = regexp.QuoteMeta(ce.pat)
+				}
+				re, err := regexp.Compile(prefix + src)
+				if perr != nil || ppan != "" || err != nil {
+					continue
+				}
+				for _, sub := range hs {
+					o := h.Call("query", p, "doc", h.Opts{Vars: map[string]any{"x": sub}})
+					c.Eval(1)
+					got, _, ok := triOf(o)
+					want := model.FromBool(re.MatchString(sub))
+					if !ok || got != want {
+						c.Violate("likeregex", h.F("flags", ce.fl, "kind", "history"), fmt.Sprintf("%s on %q = %s; Go regexp %q says %v (after other like_regex conditions were evaluated in this process)", ptxt, sub, o.Summary(), prefix+src, want), h.Case{Kind: "likeregex", Path: ptxt, Vars: fmt.Sprintf(`{"x":%q}`, sub)})
+					} else {
+						c.Held("likeregex")
+					}
+				}
+			}
+		}
+	}
 
 	// datetimes by instant: all pairs of a sub-grid of the C17 datetime
 	// strings (five types, offsets, day boundaries, DST dates) x 6 operators
